@@ -29,9 +29,9 @@
 
   NOT PROVED here: nothing of the property's statement is left to `_partial`; what the theorems do
   not cover is (i) the correspondence model ↔ Rust code (tools/props/c02.py), (ii) concurrency
-  (C07), (iii) `three_sew`/`three_unsew` reading the committed state through the non-transactional
-  `orbit()` inside a composed transaction (DESIGN.md §8-D4; irrelevant for the β part: the face
-  orbits only feed the attribute updates).
+  (C07), (iii) transactions composed of several calls (C08; the closures proved safe here compose:
+  `Safe` is about `run`, and since /repo f79acf8 — the repair of DESIGN.md §8-D4 — `three_sew` /
+  `three_unsew` walk the faces through the transaction like the model).
 -/
 import Honeycomb.Lemmas.Sew3
 import Honeycomb.Props.C01
@@ -555,6 +555,8 @@ example : step exCfg exOpen (.link 3 1 5) = exOpen :=
   (C02_refused_call_changes_nothing exCfg (m := exOpen) (ld := 1) (rd := 5)
     (s := .opened 3 1) (s' := .opened 2 2) (by decide +kernel) (by decide +kernel) (by decide +kernel)
     (by decide) (by decide +kernel) (by decide +kernel) (by decide) false).2
+example : (atomically (threeSew3 exCfg 16 1 7) exMap).2 = exMap :=
+  C02_failed_call_changes_nothing _ _ (fun ⟨⟩ => by decide +kernel)
 /-- a successful 3-link has checked the shapes -/
 example : SameShape exMap 1 4 :=
   C02_three_link_checks_shape 16 (m' := (run (threeLink3 16 1 4) exMap).2) (u := ())
